@@ -936,6 +936,8 @@ def run(ctx, res):
     c01_cios.check_cios(res, facts, ["ws", "curves", "shapes"])
     from rules import lincomb
     lincomb.check_field_ops(res, facts, ("fp::Fp<",), 20)
+    from rules import c01_fromint
+    c01_fromint.check_fromint_divisor(res, facts)
     res.notes.append("moduli analysed: %d (units %s); reduction helpers: %d; geq-predicates: %d" % (len(mods), UNITS, len(reducers), len(pinfo)))
     return {
         "level": "other",
